@@ -74,6 +74,9 @@ pub struct Scenario {
     /// version number a document gets when it is opened (editors restart it on every open)
     #[serde(default = "one")]
     pub version_base: i32,
+    /// the client percent-encodes '+' in document URIs
+    #[serde(default)]
+    pub uri_plus_encoded: bool,
 }
 
 fn one() -> i32 {
@@ -82,13 +85,19 @@ fn one() -> i32 {
 
 pub struct World {
     pub root: PathBuf,
+    /// The client spells '+' in document URIs as %2B (as VS Code does); the canonical
+    /// spelling, the one the server derives from file paths, keeps '+'.
+    pub plus_encoded: std::cell::Cell<bool>,
 }
 
 impl World {
     pub fn new() -> World {
         let scratch = std::env::var("OALSIM_SCRATCH").unwrap_or_else(|_| format!("/dev/shm/oalsim-{}", std::process::id()));
         let root = PathBuf::from(scratch).join("ws");
-        World { root }
+        World {
+            root,
+            plus_encoded: std::cell::Cell::new(false),
+        }
     }
     pub fn reset(&self, config: &str, disk: &BTreeMap<String, String>) {
         let _ = std::fs::remove_dir_all(&self.root);
@@ -116,12 +125,26 @@ impl World {
     }
     pub fn uri(&self, path: &str) -> Url {
         let canon = self.root.canonicalize().expect("scratch root");
-        Url::from_file_path(canon.join(path)).expect("abs path")
+        let u = Url::from_file_path(canon.join(path)).expect("abs path");
+        if self.plus_encoded.get() && path.contains('+') {
+            return Url::parse(&u.as_str().replace('+', "%2B")).expect("url");
+        }
+        u
     }
     /// Replaces the scratch location inside free text (error messages quote locators).
     pub fn scrub(&self, s: &str) -> String {
         s.replace(&format!("{}/", self.folder_uri()), "$WS/")
     }
+    /// The URI relative to the workspace folder, spelling preserved: two spellings of one
+    /// file are two documents for the server and stay two keys here.
+    pub fn rel_raw(&self, uri: &str) -> String {
+        let base = self.folder_uri().to_string();
+        if uri == base {
+            return "$WS".to_string();
+        }
+        uri.strip_prefix(&format!("{base}/")).unwrap_or(uri).to_string()
+    }
+
     /// The workspace-relative path a URI denotes (percent-encoding decoded).
     pub fn rel(&self, uri: &str) -> String {
         let base = self.folder_uri().to_string();
@@ -217,7 +240,7 @@ fn norm_diags(world: &World, uri: &str, params: &Value, into: &mut Diags) {
         })
         .unwrap_or_default();
     v.sort();
-    let key = world.rel(uri);
+    let key = world.rel_raw(uri);
     if v.is_empty() {
         into.remove(&key);
     } else {
@@ -237,12 +260,12 @@ pub fn canon_result(world: &World, v: &Value) -> Value {
         Value::Object(o) => {
             let mut m = serde_json::Map::new();
             for (k, x) in o {
-                let k2 = if k.starts_with("file://") { world.rel(k) } else { k.clone() };
+                let k2 = if k.starts_with("file://") { world.rel_raw(k) } else { k.clone() };
                 m.insert(k2, canon_result(world, x));
             }
             Value::Object(m)
         }
-        Value::String(s) if s.starts_with("file://") => Value::String(world.rel(s)),
+        Value::String(s) if s.starts_with("file://") => Value::String(world.rel_raw(s)),
         Value::String(s) if s.contains("file://") => Value::String(world.scrub(s)),
         o => o.clone(),
     }
@@ -476,6 +499,7 @@ fn legal_path(p: &str) -> bool {
 impl<'w> Exec<'w> {
     pub fn new(world: &'w World, scn: &Scenario) -> Exec<'w> {
         world.reset(&scn.config, &scn.disk);
+        world.plus_encoded.set(scn.uri_plus_encoded);
         if scn.folder_b {
             world.write("fb/oal.toml", &scn.config);
         }
@@ -640,7 +664,7 @@ impl<'w> Exec<'w> {
             let stale: Vec<&String> = self.peer.diags.keys().filter(|k| !fresh.diags.contains_key(*k)).collect();
             let missing: Vec<&String> = fresh.diags.keys().filter(|k| !self.peer.diags.contains_key(*k)).collect();
             let sig = if !stale.is_empty() {
-                let closed = stale.iter().all(|p| !self.client.open.contains_key(*p));
+                let closed = stale.iter().all(|p| !self.client.open.contains_key(&decode(p)));
                 format!("diagnostics-stale closed-doc={closed}")
             } else if !missing.is_empty() {
                 "diagnostics-missing".to_string()
@@ -653,7 +677,7 @@ impl<'w> Exec<'w> {
         }
         if !self.peer.diags.is_empty() {
             self.stats.probe("diagnostics_outstanding_at_comparison");
-            if self.peer.diags.keys().any(|p| !self.client.open.contains_key(p)) {
+            if self.peer.diags.keys().any(|p| !self.client.open.contains_key(&decode(p))) {
                 self.stats.probe("diag_on_disk_only_file");
             }
         }
@@ -751,7 +775,7 @@ impl<'w> Exec<'w> {
                     if stale_before {
                         self.stats.probe("close_before_refresh");
                     }
-                    if self.peer.diags.contains_key(path) {
+                    if self.peer.diags.keys().any(|k| decode(k) == *path) {
                         self.stats.probe("close_doc_with_outstanding_diagnostics");
                     }
                     let uri = self.world.uri(path);
@@ -765,7 +789,9 @@ impl<'w> Exec<'w> {
                 // "exists" without any notification reaching the server; the property
                 // quantifies over open/change/close histories, so that is outside the
                 // envelope: only documents already on disk are saved.
-                if !self.client.disk.contains_key(path) {
+                if !self.client.disk.contains_key(path) || (self.world.plus_encoded.get() && path.contains('+')) {
+                    // (second case: under the %2B spelling the server does not connect the
+                    // buffer with the file; saving would modify a cached file behind its back)
                 } else if let Some((buf, _)) = self.client.open.get(path) {
                     self.client.disk.insert(path.clone(), buf.clone());
                     self.world.write(path, buf);
@@ -983,6 +1009,11 @@ fn changes_legal(buf: Option<&str>, changes: &[Chg]) -> bool {
     true
 }
 
+/// Percent-decoding of a workspace-relative URI (for probes only).
+fn decode(rel: &str) -> String {
+    Url::parse(&format!("file:///{rel}")).ok().and_then(|u| u.to_file_path().ok()).and_then(|p| p.to_str().map(|s| s.trim_start_matches('/').to_string())).unwrap_or_else(|| rel.to_string())
+}
+
 pub fn ev_name(ev: &Ev) -> &'static str {
     match ev {
         Ev::Open { .. } => "O",
@@ -1084,6 +1115,7 @@ pub fn probe(scn: &Scenario, k: usize) -> Option<String> {
     crate::hashseed::on_fresh_thread(scn.hash_seed, 256, move || {
         let world = World::new();
         world.reset(&scn2.config, &scn2.disk);
+        world.plus_encoded.set(scn2.uri_plus_encoded);
         if scn2.folder_b {
             world.write("fb/oal.toml", &scn2.config);
         }
